@@ -358,6 +358,9 @@ def main():
         violations.append("proof broken")
         for r in proof_broken: print("BROKEN: " + r[:600])
         print("VIOLATION property=%s replay=%s no-failing-input-found" % (pid, path)); code = 1
+    for k in known.get("known", []):            # listed findings this run did not exercise are still named on every run
+        if k.get("property") == pid and k["match"] not in known_printed:
+            print("KNOWN-FINDING: property=%s %s [not exercised in this run: %s]" % (pid, k.get("what", k["match"]), k.get("exercised", "the generated inputs of this tier/seed did not reach it")))
     if code == 0:
         print("OK property=%s tier=%s seed=%d theorems=%d/%d ops=%d wall=%.0fs" % (pid, tier, seed, discharged, len(theorems), evaluations, time.time() - t0))
     finish(code)
